@@ -253,6 +253,12 @@ def rnd_session(rnd, mode, kind):
     return dict(relay=relay, L=L, pre=pre, prog=prog, I=I, O=O, N=N)
 
 
+def many_scripts(tier):
+    """N pumps stalled at the same time in splice mode (the per-thread buffer cache holds 20), then drained"""
+    ns = [1, 12, 20, 21, 25, 40] if tier == "quick" else [1, 5, 12, 19, 20, 21, 22, 25, 40, 64, 100]
+    return ["B many%d mode=sp tr=ss many=%d\nX\n" % (n, n) for n in ns]
+
+
 def random_scripts(seed, n):
     rnd = random.Random(seed * 1000003 + 17)
     kinds = ["chunk", "chunk", "bp", "bp", "werr", "rerr", "kernel", "abort", "pipefull"]
@@ -371,6 +377,7 @@ def run(pid, tier, seed, replay=None):
             scripts = scripts_from_spec(bfs, sim, tier)
             ngen = len(scripts)
             scripts += random_scripts(seed, 3000 if tier == "quick" else 60000)
+            scripts += many_scripts(tier)
             exhaustive = complete
         idx = {script_id(s): s for s in scripts}
         if len(idx) != len(scripts):
